@@ -23,10 +23,32 @@ var c03Content = func() []item {
 			out = append(out, it)
 		}
 	}
+	// rules that compute with a set-valued authority fact (they read it, they must not change it)
+	out = append(out,
+		itR(refdl.Rule{Head: atom("narrowed"), Body: []refdl.Atom{atom("scopes", vx)}, Exprs: [][]rx.Op{{
+			{Kind: rx.OpValue, V: vx}, {Kind: rx.OpValue, V: rx.SetOf(sWrite, rx.Str("admin"))}, {Kind: rx.OpBinary, B: rx.Intersection},
+			{Kind: rx.OpUnary, U: rx.Length}, {Kind: rx.OpValue, V: rx.Int(2)}, {Kind: rx.OpBinary, B: rx.Equal}}}}),
+		itR(refdl.Rule{Head: atom("widened", vx), Body: []refdl.Atom{atom("scopes", vx)}, Exprs: [][]rx.Op{{
+			{Kind: rx.OpValue, V: vx}, {Kind: rx.OpValue, V: rx.SetOf(rx.Str("root"))}, {Kind: rx.OpBinary, B: rx.Union},
+			{Kind: rx.OpValue, V: rx.Str("root")}, {Kind: rx.OpBinary, B: rx.Contains}}}}),
+	)
 	return out
 }()
 
-var c03ProbeQueries = []refdl.Rule{q(fRightW), q(fAdmin), q(fAllowedF), q(fOpWrite), q(fRightR), q(fResF), q(atom("right", vx, vy)), q(atom("query"))}
+var c03ProbeQueries = []refdl.Rule{q(fRightW), q(fAdmin), q(fAllowedF), q(fOpWrite), q(fRightR), q(fResF), q(atom("right", vx, vy)), q(atom("query")),
+	// a set-valued authority fact: a block's rule may read it, never change it
+	qe([]refdl.Atom{atom("scopes", vx)}, binExpr(vx, rx.Contains, sRead))}
+
+var c03Scopes = atom("scopes", rx.SetOf(sRead, sWrite, rx.Str("admin")))
+
+// c03Filler: more than 32 facts at authority level (copy-on-write thresholds, slice growth)
+var c03Filler = func() []refdl.Atom {
+	var out []refdl.Atom
+	for i := 0; i < 40; i++ {
+		out = append(out, atom("filler", rx.Int(int64(i))))
+	}
+	return out
+}()
 
 // panel of Query rules: one per predicate that block content can produce
 var c03QueryPanel = []refdl.Rule{
@@ -36,6 +58,7 @@ var c03QueryPanel = []refdl.Rule{
 	rule(atom("out", vx), atom("operation", vx)),
 	rule(atom("out", vx), atom("resource", vx)),
 	rule(atom("out", vx), atom("user", vx)),
+	rule(atom("out", vx), atom("scopes", vx)),
 }
 
 type c03Obs struct {
@@ -139,7 +162,7 @@ func init() {
 				}
 			}
 			ownChecks := [][]refdl.Check{{}, {chk(q(fRightW))}, {chk(q(fAdmin), q(fAllowedF))}}
-			authorities := []refdl.Block{{Facts: []refdl.Atom{fResF, fUser}}, {Facts: []refdl.Atom{fRightR}, Rules: []refdl.Rule{rAllowed2}}}
+			authorities := []refdl.Block{{Facts: []refdl.Atom{fResF, fUser, c03Scopes}}, {Facts: append([]refdl.Atom{fRightR, c03Scopes}, c03Filler...), Rules: []refdl.Rule{rAllowed2}}}
 			nc, np, no, na := int64(len(contents)), int64(len(probes)), int64(len(ownChecks)), int64(len(authorities))
 			size := nc * np * no * na * 2 * 2
 			return []*sup.Space{{Name: "block-content-invisible-elsewhere", Size: func(*sup.Ctx) int64 { return size }, Run: func(i int64, w *sup.W) {
